@@ -175,6 +175,8 @@ def compare(cfg, ser, m, stats):
     if ser['outcome'] != 'ok':
         # the serial counterpart raised: the MPI variant must fail as well (some rank raises the same class)
         classes = sorted({e[0] for e in m['errors'] if e and e[0] != 'Aborted'})
+        if 'SimError' in classes:
+            return bad      # MPI misuse detected by the simulator: reported precisely by the caller
         if m['abort'] is None or ser['outcome'] not in classes:
             bad.append(('outcome', {'serial': ser['outcome'], 'mpi_abort': m['abort'], 'mpi_errors': classes}))
         return bad
@@ -308,6 +310,8 @@ def core_configs():
         C('t3vdp', P=3, problem='vdp', mu=2.0, dt=0.05, Tend=0.4, maxiter=6, adaptivity={'e_tol': 1e-6}, restol=-1),
         C('t3art', P=3, art_restarts=[0.25, 0.5], restarting={'max_restarts': 2}, Tend=1.5),
         C('t4artearly', P=4, art_restarts=[0.125, 0.625, 0.75], restarting={'max_restarts': 2}, Tend=1.5),
+        C('t3spreadTend', P=3, art_restarts=[0.25], art_dt=4, restarting={'max_restarts': 2},
+          spread={'spread_from_first_restarted': True}, Tend=0.75),
         C('t4artdt', P=4, art_restarts=[0.375], art_dt=3, restarting={'max_restarts': 1},
           spread={'spread_from_first_restarted': False}, Tend=2.0),
         C('t3artfirst', P=3, art_restarts=[0.25, 0.625], restarting={'max_restarts': 2, 'restart_from_first_step': True},
@@ -618,17 +622,31 @@ def run(ck):
                 pass    # bit-identical to the first schedule's results (digest), which are compared below
             else:
                 bad = compare(cfg, ser, m, stats)
-                for field, detail in bad[:6]:
+                # report the FIRST discrepancy (earliest step, fields in causal order) as the root, the rest as detail;
+                # the (known, serial-side) restart-counter aliasing is reported separately so that it cannot hide others
+                ria = [b for b in bad if b[0] == 'restarts_in_a_row']
+                rest = [b for b in bad if b[0] != 'restarts_in_a_row']
+                for field, detail in ria[:1]:
+                    viol('MPI variant differs from the serial emulation: %s' % field,
+                         {'cfg': cfg, 'schedule': spec, 'detail': detail, 'n_discrepancies': len(ria)},
+                         {'kind': 'serial-vs-mpi', 'field': field, 'cause': 'restart_counter_aliasing'})
+                for field, detail in rest[:1]:
                     if field == 'mpi-run-failed' and any(e and e[0] == 'SimError' for e in m['errors']):
                         continue    # reported precisely below (MPI misuse detected by the simulator)
                     match = {'kind': 'deadlock' if field == 'deadlock' else 'serial-vs-mpi', 'field': field,
                              'cfg_kind': cfg['kind'], 'feature': feature_of(cfg),
                              'jacobi': bool(cfg.get('mssdc_jac', True)) and cfg.get('nlev', 1) == 1,
                              'coll_update': bool(cfg.get('do_coll_update'))}
-                    if field == 'restarts_in_a_row':
-                        match = {'kind': 'serial-vs-mpi', 'field': field, 'cause': 'restart_counter_aliasing'}
+                    step = detail.get('step') if isinstance(detail, dict) else None
+                    if step is not None and ser.get('outcome') == 'ok':
+                        # did the block before the first differing step end with a restart (and where)?
+                        prev = [r for r in ser['recs'] if r['ev'] == 'post' and r['block'] == step[0] - 1 and r['restart']]
+                        match['after_restart'] = bool(prev)
+                        if prev:
+                            match['restart_slot'] = '0' if min(r['slot'] for r in prev) == 0 else '>=1'
                     viol('MPI variant differs from the serial emulation: %s' % field,
-                         {'cfg': cfg, 'schedule': spec, 'detail': detail, 'n_discrepancies': len(bad)}, match)
+                         {'cfg': cfg, 'schedule': spec, 'detail': detail, 'n_discrepancies': len(rest),
+                          'all_fields': sorted({b[0] for b in rest})}, match)
                 if m is not first and not reduce_var and m['digest'] != first['digest']:
                     viol('results depend on the schedule', {'cfg': cfg, 'schedule_a': first.get('spec'), 'schedule_b': spec,
                                                            'abort_a': first['abort'], 'abort_b': m['abort']},
